@@ -313,8 +313,6 @@ Definition c07_ok (i : scenario) (obs : list opobs) : bool :=
        | [], e :: rest =>
          (* pending channel errors are raised oldest first, each in its turn: on a
             channel the broker has closed the close reason must be reached *)
-         let expected := if st_eqb (sn_state before) CLOSED
-                         then nth n (e :: rest) (last (e :: rest) e) else e in
          match st_op st with
          | AClose => true        (* close() waits on the connection, not on the channel's queue *)
          | _ =>
@@ -325,7 +323,14 @@ Definition c07_ok (i : scenario) (obs : list opobs) : bool :=
              if st_eqb (sn_state before) CLOSED &&
                 negb (has_name NChClose (on_chan c (flat_map ob_delivered (firstn (S k) obs))))
              then existsb (err_eqb e') (e :: rest)
-             else err_eqb e' expected
+             else
+               (* the oldest first; a returned message leaves the queue when it is
+                  raised, also on a closed channel, so that the reason is reached;
+                  going straight to the broker's reason is faithful too *)
+               (err_eqb e' e &&
+                (if st_eqb (sn_state before) CLOSED && ekind_eqb (e_kind e) EMsg
+                 then Nat.eqb (length (sn_errs (ob_snap ob))) (length rest) else true)) ||
+               (st_eqb (sn_state before) CLOSED && err_eqb e' (last rest e))
            | _ => match st_op st with AStop | AGet => true | _ => false end
            end
          end
